@@ -130,6 +130,40 @@ impl Stats {
     pub fn new() -> Stats {
         Stats::default()
     }
+    /// transport form for results computed in a child process (set sizes travel as counts)
+    pub fn to_json(&self) -> Json {
+        json!({
+            "evaluations": self.evaluations, "traces": self.traces, "transitions": self.transitions,
+            "states": self.states.len() as u64 + self.states_extra, "nontrivial": self.nontrivial.len() as u64 + self.nontrivial_extra,
+            "outcomes": self.outcomes, "counters": self.counters, "samples": self.samples,
+            "violations": self.violations.iter().map(|v| json!({"class": v.class, "detail": v.detail, "case": v.case})).collect::<Vec<_>>(),
+        })
+    }
+    pub fn from_json(j: &Json) -> Stats {
+        let mut out = Stats::new();
+        out.evaluations = j["evaluations"].as_u64().unwrap_or(0);
+        out.traces = j["traces"].as_u64().unwrap_or(0);
+        out.transitions = j["transitions"].as_u64().unwrap_or(0);
+        out.states_extra = j["states"].as_u64().unwrap_or(0);
+        out.nontrivial_extra = j["nontrivial"].as_u64().unwrap_or(out.states_extra);
+        for (field, map) in [("outcomes", &mut out.outcomes), ("counters", &mut out.counters)] {
+            if let Some(o) = j[field].as_object() {
+                for (k, v) in o {
+                    map.insert(k.clone(), v.as_u64().unwrap_or(0));
+                }
+            }
+        }
+        out.counters.remove("violations_total");
+        if let Some(s) = j["samples"].as_array() {
+            out.samples = s.clone();
+        }
+        if let Some(vs) = j["violations"].as_array() {
+            for v in vs {
+                out.violate(v["class"].as_str().unwrap_or(""), v["detail"].as_str().unwrap_or(""), v["case"].clone());
+            }
+        }
+        out
+    }
     pub fn outcome(&mut self, class: &str) {
         *self.outcomes.entry(class.to_string()).or_insert(0) += 1;
     }
